@@ -14,6 +14,7 @@ pub struct Ctx {
     pub samples: Vec<Value>,
     pub branches: BTreeMap<String, u64>,
     pub exhaustive: bool,
+    pub nontrivial_extra: u64,
     pub out: std::io::Stdout,
 }
 
@@ -35,6 +36,7 @@ impl Ctx {
             samples: vec![],
             branches: BTreeMap::new(),
             exhaustive: false,
+            nontrivial_extra: 0,
             out: std::io::stdout(),
         }
     }
@@ -63,7 +65,7 @@ impl Ctx {
     pub fn finish(&mut self, extra: Value) {
         let l = json!({"stats": {
             "evaluations": self.evals,
-            "distinct_nontrivial": self.nontrivial.len(),
+            "distinct_nontrivial": self.nontrivial.len() as u64 + self.nontrivial_extra,
             "failures": self.fails,
             "branches": self.branches,
             "samples": self.samples,
@@ -114,6 +116,9 @@ pub fn run(pid: &str, tier: &str, seed: u64, corpus: &str) -> bool {
     let mut r = Rng::new(seed ^ hash_str(pid));
     let replay_only = tier == "replay";
     match pid {
+        "C07" => crate::f_policy::c07(&mut ctx, tier, &mut r, &js, &reqs, replay_only),
+        "C08" => crate::f_policy::c08(&mut ctx, tier, &mut r, &js, &reqs, replay_only),
+        "C11" => crate::f_policy::c11(&mut ctx, tier, &mut r, &js, &reqs, replay_only),
         "C14" => crate::f_range::c14(&mut ctx, tier, &mut r, &js, &reqs, replay_only),
         "C17" => crate::f_hijri::c17(&mut ctx, tier, &mut r, &js, &reqs, replay_only),
         _ => return false,
